@@ -244,8 +244,22 @@ Fixpoint run (skipgc : bool) (s : state) (tr : list event) : option state :=
   | e :: tr' => match step skipgc s e with Some s' => run skipgc s' tr' | None => None end
   end.
 
+Definition is_cur (r : option index) (x : index) : bool :=
+  match r with Some c => index_eqb x c | None => false end.
+
+(* junk starts as the index manifests that are already dangling (not the current one) *)
 Definition init (reg0 : option index) (store0 : list index) : state :=
-  mkSt None false [] false [] (fun _ => Idle) reg0 store0 (fun _ => Add empty_desc) [] store0 false.
+  mkSt None false [] false [] (fun _ => Idle) reg0 store0 (fun _ => Add empty_desc) []
+       (filter (fun x => negb (is_cur reg0 x)) store0) false.
+
+Fixpoint dedup_idx (l : list index) : list index :=
+  match l with
+  | [] => []
+  | x :: t => if existsb (index_eqb x) t then dedup_idx t else x :: dedup_idx t
+  end.
+(* index manifests of this tag in the registry other than the current one *)
+Definition dangling (s : state) : nat :=
+  length (dedup_idx (filter (fun x => negb (is_cur (reg s) x)) (store s))).
 
 (* set view of an index: non-empty keys *)
 Definition memb (r : option index) (k : N) : bool := negb (k =? 0) && has_key k (idx r).
@@ -358,11 +372,11 @@ Definition res_of (p : pc) : option result := match p with Done r => Some r | _ 
 
 (* results of the callers, final index (keys), logged observations *)
 Definition vis_summary (sg : bool) (r0 : option index) (changes : list change) (vs : list vis)
-  : option (list (option result) * option (list N) * list obs) :=
-  match run_vis sg changes (init r0 [], []) vs with
+  : option (list (option result) * option (list N) * list obs * nat) :=
+  match run_vis sg changes (init r0 (match r0 with Some x => [x] | None => [] end), []) vs with
   | Some (s, log) =>
       Some (map (fun t => res_of (pcs s t)) (seq 0 (length changes)),
-            match reg s with Some l => Some (map dkey l) | None => None end, log)
+            match reg s with Some l => Some (map dkey l) | None => None end, log, dangling s)
   | None => None
   end.
 
